@@ -183,6 +183,21 @@ def run(repo, chk):
         p2 = pat.escapes_region(gr, h, reg, lambda n: n in cls_, avoid_edge=would, exits=('exit',))
         chk.ob('e', rd.ref, 'a receive error other than "would block" produces an error event and closes the connection', p1 is None and p2 is None
                and bool(errs) and bool(cls_), loc(rd, h.ast), path=pat.path_lines(p1 or p2, h) if (p1 or p2) else None, discr='error-closes')
+    # ---- f: received bytes are not lost when the peer hangs up: the pollers give a descriptor up only when drained
+    chk.rule('C12.f', 'Poll/EPoll report a hang-up (which makes the server close and discard) only when the kernel reports nothing left to read')
+    from .common import POLLERS
+    for cname in ('Poll', 'EPoll'):
+        pf = repo.func(POLLERS, f'{cname}._process')
+        chk.touch(pf)
+        gp = pf.cfg()
+        evp = pf.params[2]
+        dis = [n for n in gp.nodes if n.kind == 'stmt' and pat.fires(n.ast, '_disconnect') and not any(k == 'except' for k, _a in n.ctx)]
+        need(dis, f'C12.f: {cname}._process never reports a hang-up')
+        for dn in dis:
+            q = pat.guarded_by(gp, dn, pat.test_edge(lambda tt, pol: pol == 'F' and isinstance(tt, ast.BinOp) and isinstance(tt.op, ast.BitAnd) and
+                                                     src(tt.left) == evp and src(tt.right) in ('select.POLLIN', 'select.EPOLLIN')))
+            chk.ob('f', pf.ref, 'the hang-up is reported only without the readable bit (pending data is delivered by further read events first)', q is None,
+                   loc(pf, dn.ast), path=pat.path_lines(q) if q else None, discr='hangup-only-when-drained')
     # client side: one disconnected per connected
     ccl = repo.func(SOCKETS, 'Client._close')
     chk.touch(ccl)
